@@ -188,6 +188,7 @@ func compileRegexpFromValueString(patternStr String, flags string) (*regexpPatte
 func compileRegexp(patternStr, flags string) (p *regexpPattern, err error) {
 	var global, ignoreCase, multiline, dotAll, sticky, unicode bool
 	var wrapper *regexpWrapper
+	var matchesEmpty bool
 	var wrapper2 *regexp2Wrapper
 
 	if flags != "" {
@@ -270,6 +271,10 @@ func compileRegexp(patternStr, flags string) (p *regexpPattern, err error) {
 			}
 		} else {
 			wrapper = (*regexpWrapper)(pattern)
+			matchesEmpty = true
+			if re, err := syntax.Parse(re2Str, syntax.Perl); err == nil {
+				matchesEmpty = canMatchEmpty(re)
+			}
 		}
 	} else {
 		var incompat parser.RegexpErrorIncompatible
@@ -290,6 +295,7 @@ func compileRegexp(patternStr, flags string) (p *regexpPattern, err error) {
 		src:            patternStr,
 		regexpWrapper:  wrapper,
 		regexp2Wrapper: wrapper2,
+		matchesEmpty:   matchesEmpty,
 		global:         global,
 		ignoreCase:     ignoreCase,
 		multiline:      multiline,
